@@ -536,4 +536,168 @@ theorem interp2_eq {xs ys : List α} {f : List (List α)} (g : Grid xs ys f) (di
   simp only [e1, e2, e3, e4, e5]
   split_ifs <;> rfl
 
+/-! ### 2-D : tables in any row order (the model sorts the rows by |vi|) -/
+
+/-- `findCell` needs no sortedness at all to return an interval that contains the point -/
+theorem findCell_spec' : ∀ (xs : List α) (x : α), 2 ≤ xs.length → xs.headD 0 ≤ x → x ≤ xs.getLastD 0 →
+    findCell xs x + 1 < xs.length ∧ xs.getD (findCell xs x) 0 ≤ x ∧ x ≤ xs.getD (findCell xs x + 1) 0
+  | [], _, hl, _, _ => by simp at hl
+  | [_], _, hl, _, _ => by simp at hl
+  | [a, b], x, _, h0, h1 => by
+    simp only [findCell, List.length_cons, List.length_nil, List.getD_cons_zero, List.getD_cons_succ]
+    simp only [List.headD_cons, List.getLastD] at h0 h1
+    simp at h1
+    exact ⟨by omega, h0, h1⟩
+  | a :: b :: c :: rest, x, _, h0, h1 => by
+    have ih := findCell_spec' (b :: c :: rest) x (by simp)
+    rw [findCell]
+    split_ifs with hlt
+    · simp only [List.headD_cons] at h0
+      simp only [List.getD_cons_zero, List.getD_cons_succ, List.length_cons]
+      exact ⟨by omega, h0, hlt.le⟩
+    · have h1' : x ≤ (b :: c :: rest).getLastD 0 := by
+        simpa [List.getLastD, List.getLast_cons] using h1
+      obtain ⟨i1, i2, i3⟩ := ih (by simpa using not_lt.mp hlt) h1'
+      simp only [List.getD_cons_succ, List.length_cons] at i1 i2 i3 ⊢
+      exact ⟨by omega, i2, i3⟩
+
+/-- the relative coordinate of a point sandwiched between two consecutive axis entries is in [0, 1] -/
+theorem rel_mem' {xs : List α} {k : Nat} {x : α} (h0 : xs.getD k 0 ≤ x) (h1 : x ≤ xs.getD (k + 1) 0) :
+    0 ≤ rel xs k x ∧ rel xs k x ≤ 1 := by
+  unfold rel
+  rcases (le_trans h0 h1).lt_or_eq with hd | hd
+  · have hd' : 0 < xs.getD (k + 1) 0 - xs.getD k 0 := sub_pos.mpr hd
+    exact ⟨div_nonneg (sub_nonneg.mpr h0) hd'.le, by rw [div_le_one hd']; linarith⟩
+  · rw [← hd, sub_self, div_zero]; exact ⟨le_refl _, zero_le_one⟩
+
+theorem mem_insRow {p q : α × List α} : ∀ {l : List (α × List α)}, q ∈ insRow p l ↔ q = p ∨ q ∈ l
+  | [] => by simp [insRow]
+  | r :: rest => by
+    unfold insRow
+    split_ifs
+    · simp
+    · simp only [List.mem_cons, mem_insRow (l := rest)]
+      tauto
+
+theorem length_insRow (p : α × List α) : ∀ (l : List (α × List α)), (insRow p l).length = l.length + 1
+  | [] => by simp [insRow]
+  | r :: rest => by
+    unfold insRow
+    split_ifs
+    · simp
+    · simp [length_insRow p rest]
+
+theorem insRow_sorted (p : α × List α) : ∀ {l : List (α × List α)}, l.Pairwise (fun a b => a.1 ≤ b.1) →
+    (insRow p l).Pairwise (fun a b => a.1 ≤ b.1)
+  | [], _ => by simp [insRow]
+  | r :: rest, h => by
+    unfold insRow
+    split_ifs with hlt
+    · refine List.pairwise_cons.mpr ⟨?_, h⟩
+      intro b hb
+      rcases List.mem_cons.mp hb with rfl | hb
+      · exact hlt.le
+      · exact le_trans hlt.le ((List.pairwise_cons.mp h).1 b hb)
+    · refine List.pairwise_cons.mpr ⟨?_, insRow_sorted p (List.pairwise_cons.mp h).2⟩
+      intro b hb
+      rcases mem_insRow.mp hb with rfl | hb
+      · exact not_lt.mp hlt
+      · exact (List.pairwise_cons.mp h).1 b hb
+
+theorem sortRows_sorted (rows : List (α × List α)) : (sortRows rows).Pairwise (fun a b => a.1 ≤ b.1) := by
+  induction rows with
+  | nil => simp [sortRows]
+  | cons p rest ih => unfold sortRows at ih ⊢; rw [List.foldr_cons]; exact insRow_sorted p ih
+
+theorem mem_sortRows {q : α × List α} (rows : List (α × List α)) : q ∈ sortRows rows ↔ q ∈ rows := by
+  induction rows with
+  | nil => simp [sortRows]
+  | cons p rest ih =>
+    unfold sortRows at ih ⊢
+    rw [List.foldr_cons, mem_insRow, ih]; simp
+
+theorem length_sortRows (rows : List (α × List α)) : (sortRows rows).length = rows.length := by
+  induction rows with
+  | nil => simp [sortRows]
+  | cons p rest ih =>
+    unfold sortRows at ih ⊢
+    rw [List.foldr_cons, length_insRow, ih]; simp
+
+theorem headD_le_getLastD_of_le {xs : List α} (hs : xs.Pairwise (· ≤ ·)) : xs.headD 0 ≤ xs.getLastD 0 := by
+  cases xs with
+  | nil => simp
+  | cons a l =>
+    rw [getLastD_eq_getD (by simp)]
+    simp only [List.headD_cons]
+    by_cases hl : l = []
+    · subst hl; simp
+    · have hpos : 0 < l.length := List.length_pos_iff.mpr hl
+      have h1 : (a :: l).length - 1 < (a :: l).length := by simp
+      rw [getD_eq_getElem' _ _ h1]
+      have := (List.pairwise_iff_getElem.mp hs) 0 ((a :: l).length - 1) (by simp) h1 (by simp; omega)
+      simpa using this
+
+/-- the nine-way clamp of `_Interp2d._interp`, for every table -/
+theorem interp2_eq_clamp (xs ys : List α) (f : List (List α)) (diag : List (List Bool)) (x y : α) :
+    interp2 xs ys f diag x y =
+      interp2In (xs.map nabs) ((sortRows ((ys.map nabs).zip (f.map (·.map nabs)))).map (·.1))
+        ((sortRows ((ys.map nabs).zip (f.map (·.map nabs)))).map (·.2)) diag
+        (clamp ((xs.map nabs).headD 0) ((xs.map nabs).getLastD 0) x)
+        (clamp (((sortRows ((ys.map nabs).zip (f.map (·.map nabs)))).map (·.1)).headD 0)
+          (((sortRows ((ys.map nabs).zip (f.map (·.map nabs)))).map (·.1)).getLastD 0) y) := by
+  unfold interp2 clamp
+  simp only []
+  split_ifs <;> rfl
+
+/-- **never extrapolated, whatever the order and the signs of the vi rows**: if the io axis is increasing in
+    magnitude and the table is rectangular with at least one cell, every query — inside or outside, for
+    every diagonal choice — returns a value between any two bounds of the tabulated magnitudes. -/
+theorem interp2_bounds (xs ys : List α) (f : List (List α)) (diag : List (List Bool)) (lo hi : α)
+    (hxs : (xs.map nabs).Pairwise (· < ·)) (hx2 : 2 ≤ xs.length) (hy2 : 2 ≤ ys.length)
+    (hrows : f.length = ys.length) (hcols : ∀ row ∈ f, row.length = xs.length)
+    (hb : ∀ row ∈ f, ∀ v ∈ row, lo ≤ |v| ∧ |v| ≤ hi) (x y : α) :
+    lo ≤ interp2 xs ys f diag x y ∧ interp2 xs ys f diag x y ≤ hi := by
+  rw [interp2_eq_clamp]
+  set axs := xs.map nabs with haxs
+  set rows := sortRows ((ys.map nabs).zip (f.map (·.map nabs))) with hrowsd
+  set ays := rows.map (·.1) with hays
+  set af := rows.map (·.2) with haf
+  have hlen : rows.length = ys.length := by
+    rw [hrowsd, length_sortRows]; simp [hrows]
+  have hax2 : 2 ≤ axs.length := by simp [haxs, hx2]
+  have hay2 : 2 ≤ ays.length := by simp [hays, hlen, hy2]
+  have hsy : ays.Pairwise (· ≤ ·) := by
+    rw [hays, List.pairwise_map]; exact sortRows_sorted _
+  have mx := clamp_mem (headD_le_getLastD hxs) x
+  have my := clamp_mem (headD_le_getLastD_of_le hsy) y
+  obtain ⟨hk, a, b⟩ := findCell_spec' axs _ hax2 mx.1 mx.2
+  obtain ⟨hr, c, d⟩ := findCell_spec' ays _ hay2 my.1 my.2
+  rw [interp2In_eq_found axs ays af diag _ _ hk hr]
+  have rx := rel_mem' a b
+  have ry := rel_mem' c d
+  -- every entry of the sorted magnitude table is the magnitude of an entry of the table
+  have hv : ∀ r' k', r' < ays.length → k' < axs.length → lo ≤ getD2 af r' k' ∧ getD2 af r' k' ≤ hi := by
+    intro r' k' h1 h2
+    have h1' : r' < af.length := by simpa [haf, hays] using h1
+    unfold getD2
+    rw [getD_eq_getElem' _ _ h1']
+    have hm : af[r'] ∈ af := List.getElem_mem h1'
+    generalize af[r'] = rowv at hm ⊢
+    obtain ⟨p, hp, hp2⟩ := List.mem_map.mp (show rowv ∈ rows.map (·.2) from hm)
+    have hp := (mem_sortRows _).mp (show p ∈ sortRows ((ys.map nabs).zip (f.map (·.map nabs))) from hp)
+    have hp' := (List.of_mem_zip (a := p.1) (b := p.2) hp).2
+    rw [List.mem_map] at hp'
+    obtain ⟨row, hrow, hrow2⟩ := hp'
+    have e : rowv = row.map nabs := by rw [← hp2, ← hrow2]
+    subst e
+    have hl : k' < (row.map nabs).length := by
+      have : axs.length = xs.length := by simp [haxs]
+      simp [hcols row hrow]; omega
+    rw [getD_eq_getElem' _ _ hl]
+    simp only [List.getElem_map, nabs_eq_abs]
+    exact hb row hrow _ (List.getElem_mem _)
+  unfold cellAt
+  exact cellVal_bounds _ _ _ _ _ _ _ lo hi rx.1 rx.2 ry.1 ry.2
+    (hv _ _ (by omega) (by omega)) (hv _ _ (by omega) hk) (hv _ _ hr (by omega)) (hv _ _ hr hk)
+
 end SysLoss
